@@ -9,7 +9,8 @@
             plain, rawnames, lownames, lines, echo, echo1, now]                            (op = "emit")
      after    resp.headers after a mutating call, as <<name, value>> pairs (names case-folded by the harness)
      law      what the trusted RFC decoder made of the text a codec helper produced:
-              [cps, orig, ok, dec, dtype, deci, link]
+              [cps, uricps, orig, ok, dec, dtype, deci, link]   (uricps: the emitted URI itself - the whole
+              Location / Content-Location value, the text between < and > of a link-value)
      lines    the Set-Cookie lines the server received, parsed by the harness' RFC 6265 parser
      echo     for every cookie name: req.get_cookie_values(name) on a request echoing all cookies
    P-clauses (the property):
@@ -17,6 +18,7 @@
      P:setcookie-guard get/set/delete/bulk-set of Set-Cookie did not raise (or a legal call raised)
      P:readback        get_header / typed getter / resp.headers differ from the case-insensitive map
      P:ascii           a URI-bearing helper emitted a non-ASCII character
+     P:uri-valid       Location / Content-Location / a Link target has a "%" that does not start a %XX escape
      P:decode          decoding the emitted text does not return the original
      P:emit-once       a plain header is missing, duplicated or has another value in the server's list
      P:asgi-lower      an ASGI header name is not lower-case
@@ -113,12 +115,14 @@ Excused     == /\ QuotedCtx /\ IsAscii(Ev.law.orig)
 LawVerdict ==
     IF Ev.op = "link" THEN
         IF ~IsAscii(Ev.law.cps) THEN "P:ascii|link"
+        ELSE IF ~ValidPct(Ev.law.uricps) THEN "P:uri-valid|link"
         ELSE IF ~Ev.law.ok \/ Ev.law.link # Ev.link THEN (IF Excused THEN "ok" ELSE "P:decode|link")
         ELSE "ok"
     ELSE IF Ev.p \in {"expires", "last_modified"} THEN
         IF ~Ev.law.ok \/ Ev.law.deci # Ev.a.i THEN "P:decode|" \o Ev.p ELSE "ok"
     ELSE
         IF ~IsAscii(Ev.law.cps) THEN "P:ascii|" \o Ev.p
+        ELSE IF Ev.p \in {"location", "content_location"} /\ ~ValidPct(Ev.law.uricps) THEN "P:uri-valid|" \o Ev.p
         ELSE IF Ev.p \in {"location", "content_location"} /\ LooksEscaped(Ev.law.orig) /\ Ev.law.cps = Ev.law.orig THEN "ok"
         ELSE IF ~Ev.law.ok \/ Ev.law.dec # Ev.law.orig
                 \/ (Ev.p \in {"downloadable_as", "viewable_as"} /\ Ev.law.dtype # DispType(Ev.p))
